@@ -715,6 +715,22 @@ fn explore(cfg: &Cfg) -> (Stats, u64, u64) {
             work.push(("skip_until".into(), c));
         }
     }
+    // matching primitives on multi-byte patterns and inputs
+    for l in [Op::Insens("é"), Op::Insens("Éa"), Op::Insens("aB"), Op::Insens(""), Op::Insens("ab"), Op::Str("éa"), Op::Str("aé"), Op::Range('é', 'é'), Op::Range('a', 'é'), Op::Skip(2), Op::Skip(3), Op::Skip(0), Op::CharBy] {
+        let ctxs: Vec<Op> = vec![
+            l.clone(),
+            Op::AndThen(Box::new(Op::Skip(1)), Box::new(l.clone())),
+            Op::AndThen(Box::new(l.clone()), Box::new(l.clone())),
+            Op::Seq(Box::new(Op::AndThen(Box::new(l.clone()), Box::new(Op::Str("b"))))),
+            Op::Look(false, Box::new(l.clone())),
+            Op::Push(Box::new(Op::Rep(Box::new(l.clone())))),
+            Op::Rule(1, Box::new(Op::Opt(Box::new(l.clone())))),
+            Op::Rep(Box::new(Op::OrElse(Box::new(l.clone()), Box::new(Op::Str("b"))))),
+        ];
+        for c in ctxs {
+            work.push(("multibyte-primitives".into(), c));
+        }
+    }
     // peek slices on stacks of depth 0..3
     for l in slice_leaves() {
         for pl in &pre {
@@ -756,17 +772,18 @@ fn explore(cfg: &Cfg) -> (Stats, u64, u64) {
             }
         }
     }
+    let wide_inputs = vcore::strings_upto(&['a', 'B', 'é', 'É'], if quick { 4 } else { 5 });
     let jobs = cfg.jobs;
     let long_inputs = vcore::strings_upto(&['a', 'b', 'é'], if quick { 5 } else { 6 });
     let parts: Vec<(Stats, HashSet<u128>, u64)> = std::thread::scope(|sc| {
         let hs: Vec<_> = (0..jobs)
             .map(|j| {
-                let (work, inputs, long_inputs, short_inputs, by, pre) = (&work, &inputs, &long_inputs, &short_inputs, &by, &pre);
+                let (work, inputs, long_inputs, short_inputs, wide_inputs, by, pre) = (&work, &inputs, &long_inputs, &short_inputs, &wide_inputs, &by, &pre);
                 sc.spawn(move || {
                     let known = vcore::verdict::Known::load();
                     let mut cx = Ctx { known: &known, inputs, stats: Stats::new(), states: HashSet::new(), transitions: 0 };
                     for (label, p) in work.iter().skip(j).step_by(jobs) {
-                        cx.inputs = if label == "stack-transactions" { short_inputs } else { long_inputs };
+                        cx.inputs = if label == "stack-transactions" { short_inputs } else if label == "multibyte-primitives" { wide_inputs } else { long_inputs };
                         check_program(p, label, &mut cx);
                         cx.stats.inc("programs");
                     }
